@@ -40,6 +40,24 @@ B.create('rulename = "sibling"')  if sc.get("sibling_collides") else None
 B.create('b-two = b-one / %x41-43')
 
 
+def tree_names(rule):
+    """node names of the first parse tree of a core rule on a member of it (names are part of what a grammar sees)"""
+    for s in ["a", "5", " ", "\r\n", "\t", "\r", "\n", "\"", "1", "F", "\x00", "~"]:
+        try:
+            node, _ = rule.parse(s, 0)
+        except Exception:  # noqa
+            continue
+        out = []
+
+        def walk(n):
+            out.append(n.name)
+            for c in getattr(n, "children", []):
+                walk(c)
+        walk(node)
+        return out
+    return None
+
+
 def can_load():
     cls = type("Z", (P.Rule,), {})
     try:
@@ -51,15 +69,20 @@ def can_load():
 
 
 def snapshot():
+    """observations only through NON-creating look-ups (`get`): a look-up through the constructor may itself repair what
+    an earlier operation damaged"""
     snap = {}
+    snap["load"] = can_load()          # first: before any other look-up of this snapshot touches the shared rules
+    snap["names:core"] = [getattr(P.Rule.get(n), "name", None) for n in CORE]
+    snap["names:meta"] = [getattr(P.ABNFGrammarRule.get(n), "name", None) for n in META]
     for n in CORE:
-        snap["core:" + n] = [ends(P.Rule(n), s) for s in PROBES]
-        snap["coreB:" + n] = [ends(B(n), s) for s in PROBES]
+        snap["core:" + n] = [ends(P.Rule.get(n), s) for s in PROBES]
+        snap["coreB:" + n] = [ends(B.get(n), s) for s in PROBES]
+        snap["tree:" + n] = tree_names(P.Rule.get(n))
     for n in META:
-        snap["meta:" + n] = [ends(P.ABNFGrammarRule(n), s) for s in PROBES]
+        snap["meta:" + n] = [ends(P.ABNFGrammarRule.get(n), s) for s in PROBES]
     for n in ["b-one", "b-two"] + (["rulename"] if sc.get("sibling_collides") else []):
-        snap["B:" + n] = [ends(B(n), s) for s in ["5xa", "12xZ", "A", "D", "sibling", "abc"]]
-    snap["load"] = can_load()
+        snap["B:" + n] = [ends(B.get(n), s) for s in ["5xa", "12xZ", "A", "D", "sibling", "abc"]]
     snap["ids:core"] = [id(P.Rule(n)) for n in CORE]
     snap["ids:meta"] = [id(P.ABNFGrammarRule(n)) for n in META]
     snap["defs:core"] = [id(getattr(P.Rule(n), "definition", None)) for n in CORE]
